@@ -144,8 +144,9 @@ def main(tier: str, seed: int) -> int:
     if tier == 'quick':
         dcs = _gd.design_cases(2, 3, 2, limit=100, seed=seed)
     else:
-        dcs = _gd.design_cases(3, 3, 2) + _gd.design_cases(
-            2, 2, 3, limit=3000, seed=seed)
+        dcs = (_gd.design_cases(3, 3, 1)
+               + _gd.design_cases(3, 3, 2, limit=4000, seed=seed)
+               + _gd.design_cases(2, 2, 3, limit=2000, seed=seed))
     dbad, dstates, dtrans = _gd.check_design(dcs)
     states += dstates
     trans += dtrans
